@@ -44,6 +44,10 @@ def check(run):
             run.guard("C17.via.C16.2.bin-pairing", cfg, lambda: _C16.rule_pairing(b2, F, cfg))
             b3 = run.borrow("C08", only=r"SerializeFormat", why="the class and id stores have the same type: only their position tells them apart on the wire")
             run.guard("C17.via.C08.2.positional", cfg, lambda: _C08.rule_positional(b3, F, cfg))
+        if cfg != "C":
+            from . import C10 as _C10a
+            b102 = run.borrow("C10", why="a rejected load must leave the generic selector stores as they were")
+            run.guard("C17.via.C10.2.decode-before-mutate", cfg, lambda: _C10a.rule_atomic(b102, F, cfg))
 
 
 def _store_of(f, t):
